@@ -108,7 +108,7 @@ def run(ctx: Ctx):
     ctx.cov["rule"] = ("X: sequences on ONE DatabaseAPI with input tables registered BY NAME [the three analysis calls; the tables' "
                        "contents replaced; optionally delete_tables_created_by_splink_from_db(); the calls again, all re-checked against the "
                        "new contents]; cases: seeded tables (1-3, NULL keys), all link types; a single rule = 0-2 equi-join atoms (incl. substr keys, "
-                       "asymmetric l.a = r.b for dedupe) + optional filter atom, or an OR rule without extractable keys, salted on DuckDB; "
+                       "keys and filters not symmetric in l/r such as l.a = r.b, l.c < r.c, l.a is not null - for every link type) + optional filter atom, or an OR rule without extractable keys, salted on DuckDB; "
                        "rule lists of length 1-4 with array-exploding rules (one or two exploded arrays) on DuckDB; max_rows_limit passed "
                        "explicitly (never hit) in half of the cases; n_largest in {1,2,3,5}; 3 Coq-evaluated comparisons per case; non-trivial = the rule has a "
                        "NULL outcome, pre-filter > post-filter > 0 and >= 2 rules own pairs.")
